@@ -45,4 +45,33 @@ Proof.
       apply zmem_In in E2. apply known_spec in E2; [|assumption]. apply unknown_spec in Hj; [|assumption]. tauto. }
   ring.
 Qed.
+
+(* ---- homogeneity (change of units): the elimination solve is homogeneous of degree 1 in (b, prescribed values) ---- *)
+Lemma entered_sum_scal s dofs values d :
+  entered_sum dofs (map (fun v => s *r v) values) d = s *r entered_sum dofs values d.
+Proof.
+  revert values. unfold C04_Solve.entered_sum. induction dofs as [|a t IH]; intros [|v vt]; simpl; try ring.
+  rewrite IH. destruct (a =? d); ring.
+Qed.
+
+Lemma sum_over_scal_l l c f : sum_over l (fun i => c *r f i) = c *r sum_over l f.
+Proof. apply (sum_over_scal R rO rI radd rmul rsub ropp Rth). Qed.
+
+(* the reduced residual of the scaled data at the scaled answer is s times the reduced residual: if xi solves the reduced
+   system for (b, values), s xi solves it for (s b, s values) -- no threshold on the size of the data can be involved *)
+Theorem reduced_residual_homogeneous s n dofs values A b xi i :
+  reduced_residual n dofs (map (fun v => s *r v) values) A (fun j => s *r b j) (fun j => s *r xi j) i
+  = s *r reduced_residual n dofs values A b xi i.
+Proof.
+  unfold reduced_residual.
+  rewrite (sum_over_ext R rO radd (unknown n dofs) _ (fun j => s *r (A i j *r xi j))) by (intros; ring).
+  rewrite (sum_over_ext R rO radd (known n dofs) _ (fun c => s *r (A i c *r entered_sum dofs values c)))
+    by (intros; rewrite entered_sum_scal; ring).
+  rewrite !sum_over_scal_l. ring.
+Qed.
+
+(* the returned vector is s times the unscaled one: x(s b, s x_c) = s x(b, x_c) *)
+Theorem x_r1_homogeneous s n dofs values xi j :
+  x_r1 n dofs (map (fun v => s *r v) values) (fun k => s *r xi k) j = s *r x_r1 n dofs values xi j.
+Proof. unfold C04_Solve.x_r1. destruct (zmem j (known n dofs)); [apply entered_sum_scal|reflexivity]. Qed.
 End Ring.
